@@ -81,7 +81,7 @@ func invoke(client *core.Client) (err error, panicked interface{}) {
 func TestCheck(t *testing.T) {
 	r := h.Start(t, "C18")
 	defer r.Finish()
-	r.Meta("rule", "the seven real balancers are installed on a real core.Client in front of a terminal handler that records the chosen URL and scripts outcomes (success/error/panic/hold). Exhaustive: all weight vectors n in 1..4, weights in 1..5 (780 vectors) x 3 full cycles for weighted round-robin (count per cycle = weight/gcd) and nginx smooth weighted round-robin (count per cycle = weight); round-robin n in 1..8 (every window of n consecutive picks is a permutation); membership of every pick; least-active and weighted least-active with a held-call harness: seeded park/release walks, each probe pick must be in the argmin of the harness's own in-flight vector, accessor VerifActives() must equal that vector at every step and be all zero at quiescence also after errors and panics; failure-aware balancers: VerifEffectiveWeights() compared after every call with the recurrence from the statement (failure -1 floor 0, success +1 cap weight) over all outcome histories of length <= 6 (n<=2 exhaustive, sampled above), share of the next full cycle after recovery equals the weights exactly (nginx), 6-sigma share test for weighted random; 16 concurrent callers with mixed outcomes under the race detector: membership, counters back to zero, weights within [0, weight]. distinct_nontrivial = distinct (balancer, weight vector or walk, outcome history) combinations")
+	r.Meta("rule", "the seven real balancers are installed on a real core.Client in front of a terminal handler that records the chosen URL and scripts outcomes (success/error/panic/hold). Exhaustive: all weight vectors n in 1..4, weights in 1..5 (780 vectors) x 3 full cycles for weighted round-robin (count per cycle = weight/gcd) and nginx smooth weighted round-robin (count per cycle = weight); round-robin n in 1..8 (every window of n consecutive picks is a permutation); membership of every pick; least-active and weighted least-active with a held-call harness: seeded park/release walks, each probe pick must be in the argmin of the harness's own in-flight vector, accessor VerifActives() must equal that vector at every step and be all zero at quiescence also after errors and panics; failure-aware balancers: VerifEffectiveWeights() compared after every call with the recurrence from the statement (failure -1 floor 0, success +1 cap weight) over all outcome histories of length <= 6 (n<=2 exhaustive, sampled above), share of the next full cycle after recovery equals the weights exactly (nginx), 6-sigma share test for weighted random; 16 concurrent callers with mixed outcomes under the race detector: membership, counters back to zero, weights within [0, weight]. distinct_nontrivial = distinct (balancer, weight vector or walk, outcome history) combinations Added: one always-failing server at every position of the balancer's own order (effective weight 0 => not picked while another is healthy); the server list shortened while calls are parked on least-active.")
 	r.Meta("assumptions", []string{
 		"least-active is checked with sequential probes against parked calls (under true concurrency two picks may legitimately read the same minimum)",
 		"weighted random: 6-sigma binomial bound over 100000 picks (false-alarm probability < 1e-8 per server)",
